@@ -166,3 +166,65 @@ a
 b
 ") /\ line_count file b = Ok [].
 Proof. vm_compute. repeat split. Qed.
+
+(* ---------- round 4: the comparison, the bound, silence ---------- *)
+(* the five operators are the mathematical comparisons on naturals *)
+Lemma cop_holds_iff op a n :
+  cop_holds op a n = true <->
+  match op with OLt => a < n | OLe => a <= n | OEq => a = n | OGe => n <= a | OGt => n < a end.
+Proof.
+  destruct op; cbn [cop_holds];
+    [apply N.ltb_lt | apply N.leb_le | apply N.eqb_eq | apply N.leb_le | apply N.ltb_lt].
+Qed.
+
+(* usize::from_str never yields a value of 2^64 or more (overflow is an error) *)
+Lemma parse_usize_bound s n : parse_usize s = Some n -> n < 18446744073709551616.
+Proof.
+  unfold parse_usize. intros H.
+  destruct (match s with [] => s | c :: r => if c =? 43 then r else s end) as [|d ds]; [discriminate|].
+  destruct (digits_val 0 (d :: ds)) as [m|]; [|discriminate].
+  destruct (m <? 18446744073709551616) eqn:E; [|discriminate].
+  inversion H; subst. apply N.ltb_lt. exact E.
+Qed.
+
+(* a bound that does not fit a 64-bit usize is rejected, never wrapped *)
+Lemma parse_constraint_bound expr op n :
+  parse_constraint expr = Some (op, n) -> n < 18446744073709551616.
+Proof.
+  unfold parse_constraint. intros H.
+  destruct (strip_op (trim expr)) as [[o r]|]; [|discriminate].
+  destruct (trim r) as [|c t]; [discriminate|].
+  destruct (parse_usize (c :: t)) as [m|] eqn:E; [|discriminate].
+  inversion H; subst. exact (parse_usize_bound _ _ E).
+Qed.
+
+
+(* the block is silent exactly when the comparison holds *)
+Lemma line_count_silent_iff file b expr op n content sev :
+  get_attr (T "line-count") (b_attrs b) = Some expr ->
+  parse_constraint expr = Some (op, n) ->
+  content_of file b = Ok content ->
+  sev_of (b_attrs b) = Ok sev ->
+  (line_count file b = Ok [] <->
+   match op with
+   | OLt => spec_count content < n | OLe => spec_count content <= n
+   | OEq => spec_count content = n
+   | OGe => n <= spec_count content | OGt => n < spec_count content end).
+Proof.
+  intros Ha Hp Hc Hs. rewrite (line_count_correct _ _ _ _ _ _ _ Ha Hp Hc Hs).
+  rewrite <- cop_holds_iff.
+  destruct (cop_holds op (spec_count content) n); split; intros H; try reflexivity; discriminate.
+Qed.
+
+(* a broken severity attribute cannot hide a violation: the run stops instead *)
+Lemma line_count_bad_severity file b expr op n content e :
+  get_attr (T "line-count") (b_attrs b) = Some expr ->
+  parse_constraint expr = Some (op, n) ->
+  content_of file b = Ok content ->
+  sev_of (b_attrs b) = Err e ->
+  cop_holds op (spec_count content) n = false ->
+  line_count file b = Err e.
+Proof.
+  intros Ha Hp Hc Hs Hv. unfold line_count. rewrite Ha, Hp, Hc. cbn [bind].
+  rewrite count_nonblank_spec, Hv, Hs. reflexivity.
+Qed.
